@@ -23,6 +23,7 @@ type verifEthSim struct {
 	mu      sync.Mutex
 	sets    [][]eth_common.Address // chain truth: set i = sets[i]
 	fail    bool                   // every eth_call fails with a JSON-RPC error
+	failIdx map[uint32]int         // getGuardianSet(i) fails this many more times (a transient fault on ONE set of a range)
 	calls   int
 	abi     ethabi.ABI
 	srv     *http.Server
@@ -123,6 +124,11 @@ func (s *verifEthSim) handle(w http.ResponseWriter, r *http.Request) {
 			}
 			idx := args[0].(uint32)
 			s.queries = append(s.queries, idx)
+			if s.failIdx[idx] > 0 {
+				s.failIdx[idx]--
+				reply(nil, "verif sim: scripted transient failure of this set")
+				return
+			}
 			keys := []eth_common.Address{}
 			if int(idx) < len(s.sets) {
 				keys = s.sets[idx]
